@@ -264,6 +264,23 @@ def _maybe_broadcast_other(op: str, n_other: int = 1):
     return wrap_func
 
 
+def _lock_graph(td):
+    """Locks the result of ``_memmap_`` from its root.
+
+    The lock is propagated from the root whatever the flags of the nodes are (``lock_`` returns
+    early on a node that is already flagged), so that every nested tensordict knows its locked
+    parents and cannot be unlocked on its own.
+    """
+    from tensordict._td import _SubTensorDict
+
+    root = td
+    while isinstance(root, _SubTensorDict):
+        # a view cannot be locked: the lock state lives in its source
+        root = root._source
+    root._propagate_lock(None, is_compiling=is_compiling())
+    return td
+
+
 class TensorDictBase(MutableMapping):
     """TensorDictBase is an abstract parent class for TensorDicts, a torch.Tensor data container."""
 
@@ -5692,10 +5709,10 @@ class TensorDictBase(MutableMapping):
                     # a writer that failed must fail the call, as it does without threads
                     for future in futures:
                         future.result()
-                    return result
+                    return _lock_graph(result)
                 else:
                     return TensorDictFuture(futures, result)
-        return self._memmap_(
+        result = self._memmap_(
             prefix=prefix,
             copy_existing=copy_existing,
             inplace=True,
@@ -5704,7 +5721,8 @@ class TensorDictBase(MutableMapping):
             like=False,
             share_non_tensor=share_non_tensor,
             existsok=existsok,
-        ).lock_()
+        )
+        return _lock_graph(result)
 
     @abc.abstractmethod
     def make_memmap(
@@ -5897,11 +5915,11 @@ class TensorDictBase(MutableMapping):
                     # a writer that failed must fail the call, as it does without threads
                     for future in futures:
                         future.result()
-                    return result
+                    return _lock_graph(result)
                 else:
                     return TensorDictFuture(futures, result)
 
-        return self._memmap_(
+        result = self._memmap_(
             prefix=prefix,
             copy_existing=copy_existing,
             inplace=False,
@@ -5910,7 +5928,8 @@ class TensorDictBase(MutableMapping):
             futures=None,
             share_non_tensor=share_non_tensor,
             existsok=existsok,
-        ).lock_()
+        )
+        return _lock_graph(result)
 
     def memmap_like(
         self,
@@ -6005,7 +6024,7 @@ class TensorDictBase(MutableMapping):
                     # a writer that failed must fail the call, as it does without threads
                     for future in futures:
                         future.result()
-                    return result
+                    return _lock_graph(result)
                 else:
                     return TensorDictFuture(futures, result)
 
@@ -6013,7 +6032,7 @@ class TensorDictBase(MutableMapping):
             return torch.empty((), device=x.device, dtype=x.dtype).expand(x.shape)
 
         input = self.apply(empty_expand)
-        return input._memmap_(
+        result = input._memmap_(
             prefix=prefix,
             copy_existing=copy_existing,
             inplace=False,
@@ -6022,7 +6041,8 @@ class TensorDictBase(MutableMapping):
             futures=None,
             share_non_tensor=share_non_tensor,
             existsok=existsok,
-        ).lock_()
+        )
+        return _lock_graph(result)
 
     @classmethod
     def load(cls, prefix: str | Path, *args, **kwargs) -> T:
